@@ -10,6 +10,7 @@ import (
 
 	"github.com/KevoDB/kevo/pkg/config"
 	"github.com/KevoDB/kevo/pkg/memtable"
+	"github.com/KevoDB/kevo/pkg/verifhook"
 
 	"verif/internal/core"
 	"verif/internal/kv"
@@ -407,19 +408,23 @@ func runC18(c *core.Ctx, res *core.Result) {
 		mt := memtable.NewMemTable()
 		var lastPub atomic.Int64
 		lastPub.Store(-1)
-		total := 4000
+		total := 2500
 		dkey := func(i int) []byte { return []byte(fmt.Sprintf("d%07d", total-i)) }
 		var dstop atomic.Bool
 		var dwg sync.WaitGroup
 		var seeksDuring atomic.Int64
-		for g := 0; g < 3; g++ {
+		for g := 0; g < 6; g++ {
 			dwg.Add(1)
-			go func() {
+			rr := r.Derive(uint64(3000 + g))
+			go func(g int) {
 				defer dwg.Done()
 				for !dstop.Load() {
 					j := lastPub.Load()
 					if j < 0 {
 						continue
+					}
+					if g >= 2 {
+						j = int64(rr.Intn(int(j) + 1)) // any key published so far, not only the newest
 					}
 					t := dkey(int(j))
 					it := mt.NewIterator()
@@ -434,12 +439,16 @@ func runC18(c *core.Ctx, res *core.Result) {
 						return
 					}
 				}
-			}()
+			}(g)
 		}
+		// yields between the level links of an insert widen the window in which a node is reachable
+		// on some levels only
+		verifhook.SetYield(r.U64(), int64([]int{0, 100, 400}[r.Intn(3)]))
 		for i := 0; i < total && !stop.Load(); i++ {
 			mt.Put(dkey(i), []byte("v"), uint64(i+1))
 			lastPub.Store(int64(i))
 		}
+		verifhook.SetYield(0, 0)
 		dstop.Store(true)
 		dwg.Wait()
 		if firstMsg != "" {
